@@ -66,11 +66,37 @@ struct M {
     replace: bool,
     /// append the per-module elements as one multi-element stack instead of one by one
     bulk: bool,
-    /// 0 normal tear-down, 1 a task registered with current().join never finishes, 2 at_sim_end returns an error
+    /// 0 normal tear-down, 1 a task registered with current().join never finishes, 2 at_sim_end returns an error,
+    /// 3 three start stages, the first requests a shutdown, 4 two start stages, the first requests a restart 1 s later
     ending: u8,
+    inc: u32,
 }
 impl Module for M {
-    fn at_sim_start(&mut self, _s: usize) {
+    fn num_sim_start_stages(&self) -> usize {
+        match self.ending {
+            3 => 3,
+            4 => 2,
+            _ => 1,
+        }
+    }
+    fn at_sim_start(&mut self, stage: usize) {
+        if self.ending >= 3 {
+            if stage == 0 {
+                self.inc += 1;
+            }
+            self.log.lock().unwrap().push(format!("H:start{stage}"));
+            if stage == 0 && self.inc == 1 {
+                if self.ending == 3 {
+                    current().shutdown();
+                } else {
+                    current().shutdow_and_restart_in(Duration::from_secs(1));
+                }
+            }
+            if stage == 1 {
+                schedule_in(Message::default().kind(2), Duration::from_secs(2));
+            }
+            return;
+        }
         self.log.lock().unwrap().push("H:start".into());
         schedule_in(Message::default().kind(1), Duration::from_secs(1));
         schedule_in(Message::default().kind(2), Duration::from_secs(2));
@@ -156,7 +182,7 @@ fn run_case(c: &Case) -> Result<u64, String> {
             }
             s
         });
-        sim.node("m", M { log: log.clone(), local: c.local.clone(), base: if c.replace { 0 } else { c.global.len() }, replace: c.replace, bulk: c.bulk, ending: c.ending });
+        sim.node("m", M { log: log.clone(), local: c.local.clone(), base: if c.replace { 0 } else { c.global.len() }, replace: c.replace, bulk: c.bulk, ending: c.ending, inc: 0 });
         sim.node("rx", Sink { log: log.clone() });
         sim.gate("m", "out").connect(sim.gate("rx", "in"), None);
         let r = Builder::seeded(1).quiet().build(sim.freeze()).run();
@@ -166,6 +192,45 @@ fn run_case(c: &Case) -> Result<u64, String> {
         (l, ok)
     })
     .map_err(|m| format!("panicked: {m}"))?;
+    if c.ending >= 3 {
+        // start-up sequences in which the module turns inert between two stages: whatever is
+        // delivered or skipped, the log must consist of complete, non-interleaved brackets
+        let all: Vec<Kind> = if c.replace { c.local.clone() } else { c.global.iter().chain(c.local.iter()).copied().collect() };
+        let n = all.len();
+        let own: Vec<&String> = got.iter().filter(|e| !e.starts_with("R:")).collect();
+        let mut i = 0;
+        let mut brackets = 0;
+        let mut handlers = 0;
+        while i < own.len() {
+            for k in 0..n {
+                if own.get(i).map(|s| s.as_str()) != Some(format!("s{k}").as_str()) {
+                    return Err(format!("stack {all:?}, start-up variant {}: position {i} of the call log should open a bracket with s{k}: {own:?}", c.ending));
+                }
+                i += 1;
+                if own.get(i).is_some_and(|s| s.starts_with(&format!("i{k}:"))) {
+                    i += 1;
+                }
+            }
+            while i < own.len() && own[i].starts_with("H:") {
+                handlers += 1;
+                i += 1;
+            }
+            for k in (0..n).rev() {
+                if own.get(i).map(|s| s.as_str()) != Some(format!("e{k}").as_str()) {
+                    return Err(format!("stack {all:?}, start-up variant {}: position {i} of the call log should close the bracket with e{k}: {own:?}", c.ending));
+                }
+                i += 1;
+            }
+            brackets += 1;
+            if n == 0 {
+                break;
+            }
+        }
+        if !got.iter().any(|e| e == "H:start0") || (c.ending == 4 && got.iter().filter(|e| *e == "H:start1").count() != 1) {
+            return Err(format!("start-up variant {}: unexpected start stages in {got:?}", c.ending));
+        }
+        return Ok(vcheck::fp(&(brackets, handlers, c.ending)));
+    }
     if ok != (c.ending == 0) {
         return Err(format!("run returned {} (tear-down variant {})", if ok { "Ok" } else { "an error" }, c.ending));
     }
@@ -255,7 +320,7 @@ impl Property for C14 {
     fn rule(&self, tier: Tier) -> String {
         format!(
             "every global stack of 0..={} elements x every per-module stack of 0..={} elements (Module::stack appending to the global stack element by element or as one multi-element stack, or replacing it) over {{pass, modify id, consume kind 1, consume kind 2, send on event_start, send on event_end}}; \
-             the module sees a start stage, message kind 1 (during which elements and the handler send to a sink), message kind 2, a timer wake-up and tear-down (normal, with a joined task that never finished, with at_sim_end returning an error: the tear-down event is bracketed all the same); \
+             the module sees a start stage, message kind 1 (during which elements and the handler send to a sink), message kind 2, a timer wake-up and tear-down (normal, with a joined task that never finished, with at_sim_end returning an error: the tear-down event is bracketed all the same); plus two start-up variants (three stages, the first requests a shutdown; two stages, the first requests a restart): whatever is delivered or skipped, the call log consists of complete, non-interleaved brackets; \
              oracle: expected call log computed directly (event_start in stack order interleaved with incoming until consumed, handler iff not consumed, event_end in reverse order, brackets never interleave, emitted messages reach the sink in program order); \
              non-trivial = stack with at least 2 elements",
             tier.pick(3, 4),
@@ -266,14 +331,14 @@ impl Property for C14 {
         vec!["processing elements that panic, and stacks changed at run time, are outside the alphabet".into()]
     }
     fn required_features(&self, _tier: Tier) -> Vec<&'static str> {
-        vec!["early_element_consumes", "element_sends", "global_and_local_parts", "module_replaces_stack", "empty_stack", "multi_element_stack_appended_to_global", "tear_down_ending_in_an_error"]
+        vec!["early_element_consumes", "element_sends", "global_and_local_parts", "module_replaces_stack", "empty_stack", "multi_element_stack_appended_to_global", "tear_down_ending_in_an_error", "module_turns_inert_between_start_stages"]
     }
     fn explore(&self, ctx: &mut Ctx) {
         let gs = stacks(ctx.tier.pick(3, 4));
         let ls = stacks(ctx.tier.pick(2, 3));
         for g in &gs {
             for l in &ls {
-                for (replace, bulk, ending) in [(false, false, 0u8), (true, false, 0), (false, true, 0), (false, false, 1), (false, false, 2)] {
+                for (replace, bulk, ending) in [(false, false, 0u8), (true, false, 0), (false, true, 0), (false, false, 1), (false, false, 2), (false, false, 3), (false, false, 4)] {
                     if replace && g.len() > 1 {
                         continue;
                     }
@@ -284,8 +349,11 @@ impl Property for C14 {
                         continue;
                     }
                     let c = Case { global: g.clone(), local: l.clone(), replace, bulk, ending };
-                    if ending != 0 {
+                    if ending == 1 || ending == 2 {
                         ctx.hit("tear_down_ending_in_an_error");
+                    }
+                    if ending >= 3 {
+                        ctx.hit("module_turns_inert_between_start_stages");
                     }
                     ctx.begin(|| case_json(&c));
                     ctx.out.evaluations += 1;
